@@ -406,7 +406,7 @@ def check(case: Dict[str, Any]) -> Dict[str, Any]:
 
     def feed_heard(upto_g: Optional[int], upto_t: float) -> None:
         nonlocal hi
-        while hi < len(heard) and (heard[hi]['g'] < upto_g if upto_g is not None else heard[hi]['t'] < upto_t - 1e-6):
+        while hi < len(heard) and (heard[hi]['g'] < upto_g if upto_g is not None else heard[hi]['t'] < upto_t - EPS):
             h = heard[hi]
             for name, typ, cls, qu in h['qs']:
                 if not qu and answerable((name, typ, cls)):
@@ -422,7 +422,9 @@ def check(case: Dict[str, Any]) -> Dict[str, Any]:
                     and all((n, ty) in ask['qlist'] for n, ty, _ in q['qs']):
                 em = q
                 break
-        tie0 = any(abs(h['t'] - t) <= 1e-6 for h in heard[hi:])
+        # a question heard at the very instant of this ask (the loop advances 1 us per iteration, so "the same instant" spreads
+        # over a few microseconds): the order of the two callbacks is the event loop's, either decision is accepted
+        tie0 = any(abs(h['t'] - t) <= EPS for h in heard)
         feed_heard(em['g'] if em is not None else None, t)
         det = {'asker': ask['ai'], 'kind': ask['kind'], 'instant': rel(t), 'k': ask['k']}
         for (name, typ) in ask['qlist']:
